@@ -29,6 +29,8 @@ const FIELDS: [&str; 4] = ["f1", "f2", "f3", ""];
 const SECS: [&str; 12] = ["0", "1", "-1", "2", "10", "100", "9223372036854775807", "9223372036854776", "abc", "", "1.5", "-100"];
 const MS: [&str; 12] = ["0", "1", "-1", "2", "10", "100", "1000", "1500", "9223372036854775807", "abc", "999", "2000"];
 const SCORE_BOUNDS: [&str; 16] = ["-inf", "+inf", "inf", "0", "1", "(1", "2", "(2", "5", "-1", "(0", "abc", "(", "", "1.5", "(-inf"];
+const TIE_SCORES: [&str; 6] = ["1", "5", "5", "5", "9", "-0"];
+const TIE_BOUNDS: [&str; 10] = ["(5", "5", "(1", "1", "(9", "9", "-inf", "+inf", "(0", "0"];
 const PATTERNS: [&str; 10] = ["*", "k*", "k?", "k[12]", "k[^1]", "?1", "nomatch", "k\\1", "*1*", "k[1-3]"];
 
 pub fn key(rng: &mut Rng) -> Vec<u8> {
@@ -234,7 +236,26 @@ pub fn gen_cmd(rng: &mut Rng, fams: &[Family], now_ms: i64) -> Argv {
             10 => vec![b("HEXISTS"), k, pick(rng, &FIELDS)],
             _ => vec![b("HINCRBY"), k, pick(rng, &FIELDS), pick(rng, &INTS)],
         },
-        Family::ZSet => match rng.gen_range(0..16) {
+        Family::ZSet => match rng.gen_range(0..19) {
+            // tie-heavy sets and bounds that sit exactly on the tied scores (inclusive and exclusive, as min and as max)
+            16 => {
+                let mut a = vec![b("ZADD"), k];
+                for _ in 0..rng.gen_range(2..5) {
+                    a.push(pick(rng, &TIE_SCORES));
+                    a.push(pick(rng, &MEMBERS));
+                }
+                a
+            }
+            17 => vec![b("ZCOUNT"), k, pick(rng, &TIE_BOUNDS), pick(rng, &TIE_BOUNDS)],
+            18 => {
+                let mut a = vec![b("ZRANGEBYSCORE"), k, pick(rng, &TIE_BOUNDS), pick(rng, &TIE_BOUNDS)];
+                if rng.gen_bool(0.3) {
+                    a.push(b("LIMIT"));
+                    a.push(pick(rng, &["0", "1", "2"]));
+                    a.push(pick(rng, &["1", "2", "-1"]));
+                }
+                a
+            }
             0 | 1 | 2 => vec![b("ZADD"), k, pick(rng, &FLOATS), pick(rng, &MEMBERS)],
             3 | 4 => {
                 let mut a = vec![b("ZADD"), k];
